@@ -75,3 +75,109 @@ def check(ctx, m, cfg, rule="R-SIB"):
                               % (i.src_fn, i.callee), i.where(), inst)
     ctx.floor(rule, "calls pairing a hole with a bounding box", n, 4)
     return n
+
+
+# ---------------------------------------------------------------------------------------------------------------
+# R-SIB hashmod: an open-addressing probe must wrap around with the modulus it was started with.
+#   loc = key % M;  while (occupied) loc = (loc + 1) % M';      requires M' == M
+# (the table is later scanned / was sized by M; a probe that wraps at another bound either leaves the table or parks
+#  entries where the scan never looks).  Instances are found, not listed: every `rem(phi + 1, M')` whose phi is also
+# fed by a `rem(key, M)`.
+def _same_value(f, a, b, depth=0):
+    a, b = _strip(f, a), _strip(f, b)
+    if a == b:
+        return True
+    if a[0] == "c" and b[0] == "c":
+        return a[1] == b[1]
+    if a[0] == "i" and b[0] == "i" and depth < 6:
+        x, y = f.insts[a[1]], f.insts[b[1]]
+        if x.op == "load" and y.op == "load" and x.ops[0] == y.ops[0] and x.ops[0][0] == "i" and f.insts[x.ops[0][1]].op == "alloca":
+            # a local that is written by exactly one call (its initialiser) and otherwise only read
+            writers = 0
+            for u in f.users(x.ops[0]):
+                if u.op == "load":
+                    continue
+                if u.op == "bitcast" and all(v.op == "call" and (v.callee or "").startswith("llvm.lifetime") for v in f.users(("i", u.id))):
+                    continue
+                if u.op == "call" and not (u.callee or "").startswith("llvm."):
+                    writers += 1
+                    continue
+                return False
+            return writers == 1
+        if x.op == y.op and len(x.ops) == len(y.ops) and x.op not in ("phi", "load", "call", "alloca"):
+            return all(_same_value(f, p, q, depth + 1) for p, q in zip(x.ops, y.ops))
+    return False
+
+
+def _name_of(f, o):
+    o = _strip(f, o)
+    if o[0] == "a":
+        return f.args[o[1]]["name"]
+    if o[0] == "i":
+        return "%" + (f.insts[o[1]].name or str(o[1]))
+    if o[0] == "c":
+        return str(o[1])
+    return "?"
+
+
+def check_hashmod(ctx, m, cfg, only_fns=None, rule="R-SIB"):
+    n = 0
+    for f in m.defined():
+        for s in f.all_insts():
+            if s.op not in ("srem", "urem"):
+                continue
+            a = _strip(f, s.ops[0])
+            if a[0] != "i":
+                continue
+            inc = f.insts[a[1]]
+            if inc.op != "add" or not (inc.ops[1][0] == "c" and inc.ops[1][1] == 1):
+                continue
+            p = _strip(f, inc.ops[0])
+            if p[0] != "i" or f.insts[p[1]].op != "phi":
+                continue
+            # the web of phis the probe position lives in (loop-carried copies through inner joins)
+            web, todo = set(), [p[1]]
+            while todo:
+                k = todo.pop()
+                if k in web:
+                    continue
+                web.add(k)
+                for o in f.insts[k].ops:
+                    o = _strip(f, o)
+                    if o[0] == "i" and f.insts[o[1]].op == "phi":
+                        todo.append(o[1])
+                for u in f.users(("i", k)):
+                    if u.op == "phi":
+                        todo.append(u.id)
+            feeds = [_strip(f, o) for k in web for o in f.insts[k].ops]
+            feeds = [x for x in feeds if not (x[0] == "i" and x[1] in web)]
+            if s.id not in [x[1] for x in feeds if x[0] == "i"]:
+                continue
+            inits = [f.insts[x[1]] for x in feeds if x[0] == "i" and x[1] != s.id and f.insts[x[1]].op in ("srem", "urem")]
+            inits = [i0 for i0 in inits if not (_strip(f, i0.ops[0])[0] == "i" and f.insts[_strip(f, i0.ops[0])[1]].op == "add"
+                                                and _strip(f, f.insts[_strip(f, i0.ops[0])[1]].ops[0])[0] == "i" and _strip(f, f.insts[_strip(f, i0.ops[0])[1]].ops[0])[1] in web)]
+            if not inits:
+                continue
+            # a probe position subscripts memory
+            def _indexes(k, depth=0):
+                for u in f.users(("i", k)):
+                    if u.op == "getelementptr":
+                        return True
+                    if u.op in ("sext", "zext", "trunc") and depth < 3 and _indexes(u.id, depth + 1):
+                        return True
+                return False
+            if not any(_indexes(k) for k in web):
+                continue
+            src = s.src_fn
+            if only_fns is not None and src not in only_fns:
+                continue
+            for i0 in inits:
+                n += 1
+                inst = {"function": src, "probe_step_at": s.where(), "probe_start_at": i0.where(), "config": cfg}
+                if _same_value(f, s.ops[1], i0.ops[1]):
+                    ctx.ok(rule, inst, "probe starts at key %% %s and wraps at the same %s" % (_name_of(f, i0.ops[1]), _name_of(f, s.ops[1])))
+                else:
+                    ctx.violation(rule, "hashmod:%s:%s" % (src, _name_of(f, i0.ops[1])),
+                                  "%s: the hash probe starts at key %% %s (%s) but wraps around at %s; slots beyond the starting modulus are never "
+                                  "scanned / may lie outside the table" % (src, _name_of(f, i0.ops[1]), i0.where(), _name_of(f, s.ops[1])), s.where(), inst)
+    return n
